@@ -236,12 +236,25 @@ def ensure_makefile():
             raise RuntimeError(out)
 
 
+class build_lock:
+    """flock on _build/.lock: one build at a time (checks may run concurrently)."""
+
+    def __enter__(self):
+        BUILD.mkdir(exist_ok=True)
+        self.f = open(BUILD / ".lock", "w")
+        fcntl.flock(self.f, fcntl.LOCK_EX)
+        return self
+
+    def __exit__(self, *a):
+        fcntl.flock(self.f, fcntl.LOCK_UN)
+        self.f.close()
+        return False
+
+
 def build(prop_id: str, component: str, extract_file: str, need_props=True) -> BuildResult:
     """Rebuild, under a lock, everything the check of `prop_id` needs."""
     br = BuildResult()
-    BUILD.mkdir(exist_ok=True)
-    with open(BUILD / ".lock", "w") as lk:
-        fcntl.flock(lk, fcntl.LOCK_EX)
+    with build_lock():
         ok, log = regen()
         br.log += log
         gen = COQ / "theories" / "Generated.v"
